@@ -1027,12 +1027,17 @@ def _same_shape(a: AV, b: AV) -> bool:
 
 
 def _refresh(a: AV, fresh, deep=True) -> AV:
-    out = replace(a, alias=fresh, const=a.const)
+    """(Deep) copy: the result and - for a deep copy - everything inside it are new objects."""
+    out = replace(a, alias=frozenset(fresh), const=a.const)
     if deep:
+        root = next(iter(fresh))[0] if fresh else None
+        inner = frozenset({(root, ("[]",))}) if root is not None else frozenset()
         if a.elem is not None:
-            out = replace(out, elem=_refresh(a.elem, frozenset({(next(iter(fresh))[0], ("[]",))}), True))
+            out = replace(out, elem=_refresh(a.elem, inner, True))
+        if a.key is not None:
+            out = replace(out, key=_refresh(a.key, inner, True))
         if a.items is not None:
-            out = replace(out, items=tuple(_refresh(i, frozenset(), True) for i in a.items))
+            out = replace(out, items=tuple(_refresh(i, inner, True) for i in a.items))
     return out
 
 
